@@ -183,6 +183,7 @@ impl CallRequestsRepr {
     { unimplemented!() }
 }
 pub struct SignatureStore { pub x: u8 }
+impl Default for SignatureStore { fn default() -> Self { SignatureStore { x: 0 } } }
 pub struct CidState { pub x: u8 }
 pub struct CidInfo { pub x: u8 }
 impl From<CidState> for CidInfo { #[verifier::external_body] fn from(c: CidState) -> CidInfo { unimplemented!() } }
@@ -375,16 +376,72 @@ impl Instruction {
 
 #[verifier::external_body]
 pub fn parse_data(prev_data: &Vec<u8>, current_data: &Vec<u8>) -> PreparationResult<ParsedDataPair> { unimplemented!() }
-// verification_step::verify and signing_step::sign_produced_cids take the salt; C14.V4: it must be the particle id
+
+// ---------------------------------------------------------------- verification_step::verify, signing_step::sign_produced_cids
+// (C14.V4: the salt is the particle id; C15: incompatible result sets of one peer reject the run in the preparation step)
+pub struct CidStoreVerificationError { pub x: u8 }
+pub struct DataVerifierError { pub x: u8 }
+impl From<CidStoreVerificationError> for PreparationError { #[verifier::external_body] fn from(e: CidStoreVerificationError) -> Self { unimplemented!() } }
+impl From<DataVerifierError> for PreparationError { #[verifier::external_body] fn from(e: DataVerifierError) -> Self { unimplemented!() } }
+impl CidInfo {
+    #[verifier::external_body]
+    pub fn verify(&self) -> Result<(), CidStoreVerificationError> { unimplemented!() }
+}
+pub mod air_interpreter_data { pub mod verification { pub use super::super::DataVerifier; } }
+// interpreter-data DataVerifier: `merge` is Err(MergeMismatch) exactly when, for some peer, neither CID multiset contains the
+// other (unit multisubset + native job C15.merge); here only "which data, which salt" matters
+pub struct DataVerifier { pub data: Ghost<InterpreterData>, pub salt_origin: Ghost<int> }
+pub uninterp spec fn multisets_incompatible(a: InterpreterData, b: InterpreterData) -> bool;
+impl DataVerifier {
+    #[verifier::external_body]
+    pub fn new(data: &InterpreterData, salt: &Str) -> (r: Result<DataVerifier, DataVerifierError>)
+        requires salt.origin() == ORIGIN_PARTICLE_ID()          // C14.V4: signatures are checked for THIS particle
+        ensures r matches Ok(v) ==> v.data@ == *data
+    { unimplemented!() }
+    #[verifier::external_body]
+    pub fn verify(&self) -> Result<(), DataVerifierError> { unimplemented!() }
+    #[verifier::external_body]
+    pub fn merge(self, other: DataVerifier) -> (r: Result<SignatureStore, DataVerifierError>)
+        ensures multisets_incompatible(self.data@, other.data@) ==> r is Err
+    { unimplemented!() }
+}
+pub struct Signature { pub x: u8 }
+pub struct PublicKey { pub x: u8 }
+pub struct SigningError { pub x: u8 }
+impl PeerCidTracker {
+    #[verifier::external_body]
+    pub fn gen_signature(&self, salt: &Str, keypair: &KeyPair) -> Result<Signature, SigningError>
+        requires salt.origin() == ORIGIN_PARTICLE_ID()          // C14.V4: own results are signed for THIS particle
+    { unimplemented!() }
+}
+impl KeyPair { #[verifier::external_body] pub fn public(&self) -> PublicKey { unimplemented!() } }
+impl SignatureStore { #[verifier::external_body] pub fn put(&mut self, k: PublicKey, s: Signature) { unimplemented!() } }
 #[verifier::external_body]
-pub fn verify(prev: &InterpreterData, current: &InterpreterData, salt: &Str) -> PreparationResult<SignatureStore>
+pub fn signing_error(e: SigningError) -> (r: ExecutionError) ensures !r.catchable { unimplemented!() }
+
+//@ lift air/src/verification_step.rs :: fn verify @ cfg(feature = "check_signatures")
+//@ props C14 C15
+//@ ret r
+//@ sig 1 "salt: &str" => "salt: &Str"
+//@ rewrite 1 "use air_interpreter_data::verification;" => "use air_interpreter_data::verification;"
+//@ spec
     requires salt.origin() == ORIGIN_PARTICLE_ID()
-{ unimplemented!() }
-#[verifier::external_body]
-pub fn sign_produced_cids(t: &mut PeerCidTracker, s: &mut SignatureStore, salt: &Str, k: &KeyPair) -> (r: Result<(), ExecutionError>)
+    ensures
+        // C15: previous and current data with incompatible result sets of one peer never pass the preparation step
+        multisets_incompatible(*prev_data, *current_data) ==> r is Err,
+//@ end
+
+//@ lift air/src/signing_step.rs :: fn sign_produced_cids @ cfg(feature = "gen_signatures")
+//@ props C14
+//@ ret r
+//@ sig 1 "salt: &str" => "salt: &Str"
+//@ rewrite 1 "use crate::UncatchableError;" => ""
+//@ rewrite 1 ".map_err(UncatchableError::SigningError)?" => ".map_err(|e: SigningError| -> (o: ExecutionError) ensures !o.catchable { signing_error(e) })?"
+//@ spec
     requires salt.origin() == ORIGIN_PARTICLE_ID()
-    ensures r matches Err(e) ==> !e.catchable    // signing_step.rs: the only error is UncatchableError::SigningError
-{ unimplemented!() }
+    ensures r matches Err(e) ==> !e.catchable      // the only error is UncatchableError::SigningError
+//@ end
+
 // ---------------------------------------------------------------- preparation_step::prepare / make_exec_ctx (C06.V3, C22)
 //@ lift air/src/execution_step/execution_context/context.rs :: struct ExecCtxIngredients
 //@ derive
